@@ -84,6 +84,13 @@ where
     }
 }
 
+#[cfg(bma400_verif)]
+impl AutoLpConfig {
+    pub(crate) fn verif_regs(&self) -> [(u8, u8); 2] {
+        verif_regs!(self; auto_low_pow0, auto_low_pow1)
+    }
+}
+
 #[cfg(test)]
 mod tests {
     use super::*;
